@@ -455,6 +455,16 @@ func (c *legacySeq) callR(call *ast.CallExpr, fns map[string]*ast.FuncLit) []*an
 				fl = a
 			case *ast.Ident:
 				fl = fns[a.Name]
+			case *ast.SelectorExpr:
+				// a method value (t.readMember): the element reader is the body of that method
+				if sel, ok := c.info.Selections[a]; ok && sel.Kind() == types.MethodVal {
+					if mf, isF := sel.Obj().(*types.Func); isF {
+						if decl := c.p.Decl(mf); decl != nil && decl.Body != nil {
+							el := c.stmtsR(decl.Body.List, map[string]*ast.FuncLit{})
+							return []*an.WItem{{Kind: "array", Elem: elemOf(el)}}
+						}
+					}
+				}
 			}
 			if fl == nil {
 				c.fail("readArrayWith with an element reader that is not a local function literal")
